@@ -129,6 +129,9 @@ def h_owner_leaves(ex, dll, how, aac=False):
         Ls.append(lca)
     else:
         lint = L(w, 'int', X)
+        if how == 'unsubscribe2':
+            # the same callback listens on two addresses (two registrations in a row), then unsubscribes
+            n.ecu.subscribe(lint, X - 1)
         n.ecu.subscribe(lint, X)
         Ls.append(lint)
     seg = 60 if fd else 7
@@ -320,6 +323,7 @@ def jobs(tier):
         out.append(Job('C05', 'c05:h_owner_leaves', {'dll': dll, 'how': 'ca_loses'}, W=40, wall=120, validate=1))
         out.append(Job('C05', 'c05:h_owner_leaves', {'dll': dll, 'how': 'ca_loses', 'aac': True}, W=40, wall=120, validate=1))
         out.append(Job('C05', 'c05:h_owner_leaves', {'dll': dll, 'how': 'unsubscribe'}, W=40, wall=120, validate=1))
+        out.append(Job('C05', 'c05:h_owner_leaves', {'dll': dll, 'how': 'unsubscribe2'}, W=40, wall=120, validate=1))
     out.append(Job('C05', 'c05:h_bystander', {'dll': 'j1939-21', 'size': 20}, W=40, wall=120, validate=1))
     if tier != 'quick':
         more = [
